@@ -94,7 +94,10 @@ class TreeGen:
             return self.atom()
         for _ in range(20):
             name = self.rng.choice(self.names())
-            kids = [self.random(depth - 1) for _ in range(self.arity(name))]
+            n_kids = self.arity(name)
+            if name in FLAT and name in self.fmt:
+                n_kids = self.rng.choice([2, 2, 3, 4])      # flattened operators are n-ary
+            kids = [self.random(depth - 1) for _ in range(n_kids)]
             if all(self.ok_edge(name, i, k) for i, k in enumerate(kids)):
                 return self.build(name, kids)
         return self.atom()
